@@ -769,6 +769,8 @@ def canon(text):
                     j += 1
                 v, nxt = val(j + 1)
                 items.append((s[i:j], v))
+                if nxt <= i:
+                    raise IndexError
                 i = nxt + 1 if s[nxt] == ',' else nxt
             return '{' + ','.join('%s=%s' % x for x in sorted(items)) + '}', i + 1
         if c == '[':
@@ -777,6 +779,8 @@ def canon(text):
             while s[i] != ']':
                 v, nxt = val(i)
                 items.append(v)
+                if nxt == i and s[nxt] != ',':      # no progress (text that is not a Display value, e.g. after an unescaped backslash): give up
+                    raise IndexError
                 i = nxt + 1 if s[nxt] == ',' else nxt
             return '[' + ','.join(items) + ']', i + 1
         if c == '"':
